@@ -26,7 +26,7 @@ REAL_VS_STUB = {"real": ["incomplete_cooperative.game", "bounds", "coalitions", 
                 "stub": [], "seams": ["sys.settrace interrupt injector", "functools cache eviction"]}
 ASSUMPTIONS = ["interrupts land between Python lines of package code, not inside numpy calls",
                "bounds are only compared after a completed compute at K containing the minimal information"]
-PROBES = ["torn_then_recomputed", "two_histories_same_K", "unstep_after_2_steps", "scribble_then_compute",
+PROBES = ["oracle_computed_in_a_fresh_process", "same_unknown_ids_at_another_size", "torn_then_recomputed", "two_histories_same_K", "unstep_after_2_steps", "scribble_then_compute",
           "evict_then_compute"]
 TIERS = {
     "quick": {"runs": 60000, "wall": 40, "batch": 32, "shrink_s": 40},
@@ -40,8 +40,12 @@ def preload() -> None:
     games.gap_functions()
 
 
-def compare_fresh(sim: Sim, h: gm.GameHarness, clause: str) -> None:
-    f = games.fresh(h.n, h.comp, list(h.kv), _values_of(h))
+def compare_fresh(sim: Sim, h: gm.GameHarness, clause: str, pristine: bool = False) -> None:
+    if pristine:
+        sim.probe("oracle_computed_in_a_fresh_process")
+        f = games.fresh_pristine(h.n, h.comp, list(h.kv), _values_of(h))
+    else:
+        f = games.fresh(h.n, h.comp, list(h.kv), _values_of(h))
     a, b = games.snapshot(h.g), games.snapshot(f)
     sim.state(h.n, h.comp_name, h.mask())
     sim.checked()
@@ -97,7 +101,9 @@ def run_object(sim: Sim) -> None:
                     sim.probe("scribble_then_compute")
                 if sim.faults.get("memo_evict", 0) > faults_before.get("memo_evict", 0):
                     sim.probe("evict_then_compute")
-                compare_fresh(sim, h, "C08.history_differs_from_fresh_object")
+                compare_fresh(sim, h, "C08.history_differs_from_fresh_object", pristine=sim.flip(1, 6, "pristine-oracle"))
+                if len(h.unknown()) <= 3 and h.n < 6 and sim.flip(1, 3, "mirror"):
+                    mirror_other_size(sim, h)
                 m = h.mask()
                 if m in seen_masks and seen_masks[m] != sim.mutations:
                     sim.probe("two_histories_same_K")
@@ -111,7 +117,33 @@ def run_object(sim: Sim) -> None:
             ids = [i for i in h.minimal if i not in h.kv]
             h.bulk_set(ids, [float(h.values[i]) for i in ids])
         h.compute()
-        compare_fresh(sim, h, "C08.history_differs_from_fresh_object")
+        compare_fresh(sim, h, "C08.history_differs_from_fresh_object", pristine=True)
+
+
+def mirror_other_size(sim: Sim, h: gm.GameHarness) -> None:
+    """The same set of unknown coalition ids at another player count, in the same process.
+
+    A game with one more player in which every coalition containing the new player is known has exactly the
+    unknown-id set of `h`; anything the package remembers per "unknown set" without the player count collides."""
+    n2 = h.n + 1
+    unknown = h.unknown()
+    cls = gm.class_for(h.comp_name)
+    v2, _ = games.draw_game(sim, n2, cls if cls == "SAM" else "SA")
+    known2 = [i for i in range(2 ** n2) if i not in unknown]
+    sim.op("mirror-other-size", n2, unknown)
+    sim.probe("same_unknown_ids_at_another_size")
+    with sim.guard("C08.operation_raised"):
+        g2 = games.fresh(n2, h.comp, known2, v2)
+        f2 = games.fresh_pristine(n2, h.comp, known2, v2)
+    sim.checked()
+    if games.snapshot(g2) != games.snapshot(f2):
+        ka, la, ua = games.arrays(g2)
+        kb, lb, ub = games.arrays(f2)
+        bad = [int(i) for i in np.nonzero((la != lb) | (ua != ub))[0]][:8]
+        sim.fail("C08.bounds_depend_on_earlier_games_in_the_process",
+                 {"n": n2, "computer": h.comp_name, "unknown": unknown, "earlier_game_n": h.n, "differs_at": bad,
+                  "this_process": [[float(la[i]), float(ua[i])] for i in bad],
+                  "fresh_process": [[float(lb[i]), float(ub[i])] for i in bad]})
 
 
 def run_env(sim: Sim) -> None:
